@@ -871,6 +871,126 @@ func vC04Sweep(c *vCtx, maxN int) {
 	c.Bound = fmt.Sprintf("sweep sizes 1..%d", maxN)
 }
 
+// vC04Large: LARGE document sets (a numeric field held by more than 8192 / 65536
+// documents) and selective AND chains: a categorical filter that keeps 1/40 of the
+// documents (some of which lack the numeric field) followed by numeric comparisons that are
+// true at 0, in both orders, through WithFilters and through one AND group; every answer
+// is the intersection of the model's single-filter answers. Values and operands are
+// non-negative (the mixed-sign finding of the BSI library is witnessed elsewhere).
+func vC04Large(c *vCtx, sizes []int) {
+	vC04FieldType["g"] = 'S'
+	for _, n := range sizes {
+		if c.Expired() {
+			c.Bound += fmt.Sprintf(" (deadline before n=%d)", n)
+			return
+		}
+		docs := make([]map[string]interface{}, n)
+		for i := range docs {
+			d := map[string]interface{}{"g": fmt.Sprintf("g%d", i%40)}
+			if i%3 != 1 {
+				d["i"] = (i * 7) % 5000
+			}
+			if i%5 != 4 {
+				d["f"] = float64(i%700) * 0.29
+			}
+			if i%2 == 0 {
+				d["b"] = i%4 == 0
+			}
+			docs[i] = d
+		}
+		s := &vC04Sys{c: c, cfgS: fmt.Sprintf("metadata large n=%d", n), maxDocs: n, docs: docs}
+		s.Reset()
+		var hist []vOp
+		for i := 0; i < n; i++ {
+			s.Apply(vOp{K: "Add", A: i + 1, B: i}, hist, false)
+		}
+		c.Transitions += int64(n)
+		chains := [][]Filter{
+			{Eq("g", "g7"), Lt("i", 100)},
+			{Eq("g", "g7"), Gte("i", 0)},
+			{Eq("g", "g7"), Eq("i", 0)},
+			{Eq("g", "g7"), Range("i", 0, 2500)},
+			{Eq("g", "g7"), Lte("f", 1.0)},
+			{Eq("g", "g7"), Ne("i", 5)},
+			{In("g", "g1", "g2"), Gt("i", 3)},
+			{Eq("g", "g7"), Exists("b"), Lt("i", 50)},
+			{Eq("g", "g39"), NotExists("i")},
+			{Eq("g", "g13"), Eq("b", true), Lte("i", 4999)},
+			{Eq("g", "nope"), Gte("i", 0)},
+		}
+		judge := func(phase string) {
+			for _, ch := range chains {
+				var sets []map[uint32]bool
+				ok := true
+				for _, f := range ch {
+					set, judged, _ := s.eval(f)
+					ok = ok && judged
+					sets = append(sets, set)
+				}
+				if !ok {
+					continue
+				}
+				want := map[uint32]bool{}
+				for id := range sets[0] {
+					in := true
+					for _, o := range sets[1:] {
+						in = in && o[id]
+					}
+					if in {
+						want[id] = true
+					}
+				}
+				rev := make([]Filter, len(ch))
+				for i, f := range ch {
+					rev[len(ch)-1-i] = f
+				}
+				for vi, q := range []vC04Query{{filters: ch}, {filters: rev}, {groups: []*FilterGroup{{Filters: ch, Logic: AND}}}, {groups: []*FilterGroup{{Filters: rev, Logic: AND}}}} {
+					c.Evaluations++
+					got, err := s.run(q)
+					var names []string
+					for _, f := range ch {
+						names = append(names, vFilterStr(f))
+					}
+					if err != nil {
+						c.Violation("search-error", "large", s.cfgS, []string{phase}, fmt.Sprintf("%v: %v", names, err))
+						continue
+					}
+					if !vSetEq(got, want) {
+						extra, missing := 0, 0
+						var eg uint32
+						for id := range got {
+							if !want[id] {
+								extra++
+								eg = id
+							}
+						}
+						for id := range want {
+							if !got[id] {
+								missing++
+								eg = id
+							}
+						}
+						c.Violation("wrong-filter-answer", "large:and-chain", s.cfgS, []string{phase}, fmt.Sprintf("AND chain %v (variant %d): %d ids returned, %d expected; %d not matching, %d missing, e.g. id %d = %v", names, vi, len(got), len(want), extra, missing, eg, docs[eg-1]))
+					}
+					if len(want) > 0 && len(want) < len(s.live) {
+						c.Nontrivial(fmt.Sprintf("%s|%s|%v|%d", s.cfgS, phase, names, vi))
+					}
+				}
+			}
+		}
+		judge("after the adds")
+		for i := 3; i < n; i += 7 {
+			s.Apply(vOp{K: "Remove", A: i + 1}, hist, false)
+		}
+		judge("every 7th removed")
+		s.idx.Flush()
+		judge("flushed")
+		c.Traces++
+		c.NewState(s.cfgS)
+	}
+	c.Bound += fmt.Sprintf(" large document sets %v", sizes)
+}
+
 func init() {
 	vRegister(&vCheck{
 		ID: "C04", Level: "model_checking", Engine: "histmc",
@@ -899,6 +1019,14 @@ func init() {
 				bdepth = 4
 			}
 			sh = append(sh, vShard{Name: "meta/builders", Run: func(c *vCtx) { vMetaBuilderShard(c, bdepth) }})
+			lsz := [][]int{{13000}}
+			if tier == "thorough" {
+				lsz = [][]int{{13000}, {70000}, {140000}}
+			}
+			for _, sz := range lsz {
+				sz := sz
+				sh = append(sh, vShard{Name: fmt.Sprintf("meta/large/%d", sz[0]), Run: func(c *vCtx) { vC04Large(c, sz) }})
+			}
 			sh = append(sh, vShard{Name: "meta/sweep", Run: func(c *vCtx) { vC04Sweep(c, maxN) }})
 			sh = append(sh, vShard{Name: "meta/lists", Run: vC04Lists})
 			sh = append(sh, vShard{Name: "meta/keys", Run: func(c *vCtx) { vC04Keys(c, maxDocs-1) }})
@@ -930,6 +1058,13 @@ func init() {
 			}
 			if v.Config == "metadata keys" {
 				vC04Keys(c, 3)
+				_, ok := c.viol[v.Sig()]
+				return ok
+			}
+			if strings.HasPrefix(v.Config, "metadata large n=") {
+				var n int
+				fmt.Sscanf(v.Config, "metadata large n=%d", &n)
+				vC04Large(c, []int{n})
 				_, ok := c.viol[v.Sig()]
 				return ok
 			}
